@@ -9,6 +9,7 @@ import (
 	"github.com/orda-io/orda/client/pkg/simhook"
 	"sort"
 	"strings"
+	"sync"
 
 	"golang.org/x/sync/semaphore"
 )
@@ -19,6 +20,10 @@ type DatatypeManager struct {
 	syncManager *SyncManager
 	sema        *semaphore.Weighted
 	dataMap     map[string]iface.Datatype
+	// keys of realtime datatypes that have to pull once more: what others pushed between the server's
+	// answer to the subscription and the subscription to the notification topic was announced to nobody
+	catchUp   map[string]bool
+	catchUpMu sync.Mutex
 }
 
 // NewDatatypeManager creates a new instance of DatatypeManager
@@ -26,6 +31,7 @@ func NewDatatypeManager(ctx *context.ClientContext, sm *SyncManager) *DatatypeMa
 	dm := &DatatypeManager{
 		ctx:         ctx,
 		dataMap:     make(map[string]iface.Datatype),
+		catchUp:     make(map[string]bool),
 		syncManager: sm,
 		sema:        semaphore.NewWeighted(1),
 	}
@@ -63,6 +69,9 @@ func (its *DatatypeManager) DeliverTransaction(wired iface.WiredDatatype) {
 							break
 						}
 					}
+				}
+				if next == nil {
+					next = its.pendingCatchUp()
 				}
 				if next != nil {
 					its.ctx.L().Infof("deliver transaction after delivering")
@@ -120,10 +129,14 @@ func (its *DatatypeManager) SyncAll() errors.OrdaError {
 	}
 	defer func() {
 		its.sema.Release(1)
+		if next := its.pendingCatchUp(); next != nil {
+			its.DeliverTransaction(next)
+		}
 	}()
 
 	var pushPullPacks []*model.PushPullPack
 	for _, data := range its.dataMap {
+		its.clearCatchUp(data.GetKey())
 		ppp := data.CreatePushPullPack()
 		pushPullPacks = append(pushPullPacks, ppp)
 	}
@@ -148,6 +161,15 @@ func (its *DatatypeManager) OnChangeDatatypeState(dt iface.Datatype, state model
 				return errors.DatatypeSubscribe.New(nil, err.Error())
 			}
 			its.ctx.L().Infof("subscribe datatype topic(%s)", topic)
+			if its.ctx.Client.SyncType == model.SyncType_REALTIME {
+				// The answer that made the datatype SUBSCRIBED is as old as its way back from the server,
+				// and pushes of other clients in the meantime were announced before anybody listened here:
+				// pull once more when the running exchange is over, or the replica stays behind until
+				// somebody happens to push again.
+				its.catchUpMu.Lock()
+				its.catchUp[dt.GetKey()] = true
+				its.catchUpMu.Unlock()
+			}
 		}
 	}
 	return nil
@@ -173,8 +195,33 @@ func (its *DatatypeManager) SubscribeOrCreate(dt iface.Datatype, state model.Sta
 	return nil
 }
 
+// pendingCatchUp returns a datatype that still has to pull once after its subscription, if any.
+func (its *DatatypeManager) pendingCatchUp() iface.WiredDatatype {
+	its.catchUpMu.Lock()
+	keys := make([]string, 0, len(its.catchUp))
+	for k := range its.catchUp {
+		keys = append(keys, k)
+	}
+	its.catchUpMu.Unlock()
+	sort.Strings(keys)
+	for _, k := range keys {
+		if wired, ok := its.dataMap[k].(iface.WiredDatatype); ok {
+			return wired
+		}
+	}
+	return nil
+}
+
+// clearCatchUp: a request for the datatype is about to be built, it pulls whatever is missing.
+func (its *DatatypeManager) clearCatchUp(key string) {
+	its.catchUpMu.Lock()
+	delete(its.catchUp, key)
+	its.catchUpMu.Unlock()
+}
+
 // sync enables a datatype of the specified key to be synchronized.
 func (its *DatatypeManager) sync(data iface.WiredDatatype) errors.OrdaError {
+	its.clearCatchUp(data.GetKey())
 	ppp := data.CreatePushPullPack()
 	return its.syncPushPullPacks(ppp)
 }
